@@ -84,11 +84,25 @@ def run(chk: Check, model):
         chk.add("C20.layers", "Policy: all Dense layers but the last are hidden layers", ok and l.pre.get(nm) == S("norm_obs"), f"hidden loop runs over {T.show(it)[:120]} with num_layers = {T.show(n_layers)[:60]}, starting from {T.show(l.pre.get(nm, T.NONE))[:40]}", chk.loc(f_p))
         elem = ("elem", it, l.uid)
         ok = body[0] == "call" and isinstance(body[1], tuple) and body[1][0] == "index" and body[1][2] == S("self.hidden_activation") and len(body[2]) == 1
+        inner = None
         if ok:
             table = body[1][1]
             if table[0] == "call" and table[1] == "dict":
                 policy_map = {k: (v[1] if v[0] == "sym" else T.show(v)) for k, v in table[3]}
             inner = body[2][0]
+        else:
+            # the table has known contents (a dict literal in the function or a module-level constant): the lookup reads as the chain
+            # over hidden_activation == key; one application per key, all of the same layer output
+            pkeys = {y[1] for gd in [body] + [e.guard for e in rp.events if e.kind == "raise"] for x in T.walk(gd) if x[0] == "eq" and S("self.hidden_activation") in x[1] for y in x[1] if y[0] == "const" and isinstance(y[1], str)}
+            inners = set()
+            for k in sorted(pkeys):
+                v = T.subst(body, {S("self.hidden_activation"): T.const(k)})
+                if v[0] == "call" and len(v[2]) == 1 and not v[3]:
+                    policy_map[k] = T.call_name(v)
+                    inners.add(v[2][0])
+            ok = bool(pkeys) and len(policy_map) == len(pkeys) and len(inners) == 1
+            inner = next(iter(inners)) if ok else None
+        if ok:
             ok = inner[0] == "call" and isinstance(inner[1], tuple) and inner[1][0] == "attr" and inner[1][2] == "apply" and T.call_name(inner[1][1]) == "flax.linen.Dense"
             if ok:
                 params = inner[2][0]
@@ -119,7 +133,7 @@ def run(chk: Check, model):
         chk.add("C20.layers", "Policy samples from N(mean, exp(log_std)) like the Actor", ok2, f"sampling distribution = MultivariateNormalDiag({T.show(mean)[:60]}, {T.show(std)[:100]}), the Actor uses exp(log_std)", chk.loc(f_p))
     else:
         chk.add("C20.layers", "Policy samples from N(mean, exp(log_std)) like the Actor", False, f"stochastic output = {T.show(smp)[:200]}", chk.loc(f_p))
-    raises = [e for e in rp.events if e.kind == "raise"]
+    raises = [e for e in rp.events if e.kind == "raise" and mentions(e.guard, "output_activation")]
     chk.add("C20.layers", "other output activations are rejected", len(raises) == 1 and T.subst(raises[0].guard, {S("self.output_activation"): T.const("tanh")}) == T.TRUE, "apply_actor must raise for a non-gaussian output activation", chk.loc(f_p))
     # ---------------------------------------------------------------- get_action
     f_g, rg = _r(model, "ppo.Policy.get_action")
